@@ -177,7 +177,13 @@ impl Prop for Order {
         let route = ((c.a.ns ^ c.b.ns ^ c.a.day) % 20) as u8;
         let late = edge || route >= 17;
         let r = catch(|| {
-            let a = if late { mk_dt_off_late(ia, c.oa) } else if route < 10 { mk_dt_route(ia, route).set_offset(Offset::Fixed(c.oa)) } else { mk_dt_off(ia, c.oa) };
+            let a = if late { mk_dt_off_late(ia, c.oa) } else if route < 10 { mk_dt_route(ia, route).set_offset(Offset::Fixed(c.oa)) } else {
+                let (v, local) = mk_dt_off_pin(ia, c.oa);
+                if local {
+                    cx.nt("operand_carries_Offset::Local");
+                }
+                v
+            };
             let b = if late { mk_dt_off_late(ib, c.ob) } else if route < 10 { mk_dt_route(ib, route / 2).set_offset(Offset::Fixed(c.ob)) } else { mk_dt_off(ib, c.ob) };
             let stamps = (a.timestamp(), b.timestamp());
             let since = [
